@@ -119,6 +119,18 @@ def prop_cross(case, ctx):
     else:
         ctx.check(ip["e_vld"] == -1, "info['e_vld'] should be -1 without validation data", got=ip["e_vld"])
     ctx.check(len(seen) == nswp, "callback was not called once per sweep", calls=len(seen), nswp=nswp)
+    # the callback is documented to run after every sweep "and the accuracy check": what it reads in info belongs to the tensor it gets
+    for s_, (_, Ycb, icb) in enumerate(seen, 1):
+        ctx.check(icb["nswp"] == s_, "info['nswp'] seen by the callback is not the number of the finished sweep", seen=icb["nswp"], sweep=s_)
+        ctx.check(abs(icb["r"] - oracle.erank_ref(Ycb)) <= 1e-9 * oracle.erank_ref(Ycb), "info['r'] seen by the callback is not the effective rank of the tensor it was given", sweep=s_)
+        if I_vld is not None:
+            vals = dense(Ycb)[tuple(I_vld.T)]
+            tv = (K_of(Ycb) * EPS * dense_abs(Ycb))[tuple(I_vld.T)]
+            ref = float(np.linalg.norm(vals - y_vld) / np.linalg.norm(y_vld))
+            ctx.check(abs(icb["e_vld"] - ref) <= float(np.linalg.norm(tv) / np.linalg.norm(y_vld)) * 4 + 1e-12 * ref,
+                      "info['e_vld'] seen by the callback is not the validation error of the tensor it was given", sweep=s_, got=icb["e_vld"], ref=ref)
+        else:
+            ctx.check(icb["e_vld"] == -1, "info['e_vld'] seen by the callback should be -1 without validation data", got=icb["e_vld"])
     Yold_last, Ycb_last, _ = seen[-1]
     ctx.check(all(np.array_equal(a, b) for a, b in zip(Ycb_last, Yp)), "tensor seen by the last callback differs from the returned one")
     iv = oracle.accuracy_interval(Yp, Yold_last)
